@@ -48,6 +48,8 @@ def main():
             out["tests"] = o.strip()[-80:]
         t0 = time.time()
         env2 = dict(os.environ, VERIF_REPO=tree)
+        if not in_repo:
+            env2["VERIF_EVIDENCE_DIR"] = "/var/tmp/seedtest_evidence"
         rc, o = sh("cd /verif && ./check %s --tier %s" % (pid, tier), env=env2)
         out["check_rc"] = rc
         out["check_s"] = round(time.time() - t0, 1)
